@@ -331,6 +331,7 @@ func runCellOnce(rep *hx.Report, r *rand.Rand, iomod int, emode int, nconn, ntls
 	}
 	defer e.Stop()
 	c := cfg{IOMod: iomod, Epoll: ename, NConn: nconn, NTLS: ntls}
+	hx.Current("", "the process died while this cell of the end-to-end matrix was running", c)
 	// peers that disconnect while their handler is still running: the response flush of those exchanges fails
 	for k := 0; k < 1+r.Intn(3); k++ {
 		if ac, err := net.DialTimeout("tcp", addr, 3*time.Second); err == nil {
@@ -932,6 +933,9 @@ func main() {
 	logging.SetLogger(quiet{})
 	initTLS()
 	rep := hx.NewReport("httpe2e", *seed)
+	if *out != "" && *out != "-" {
+		hx.CurrentFile = *out + ".current"
+	}
 	if *part == "c08" {
 		rep.Rule = "engine level: per IOMod x {plain, TLS 1.2, TLS 1.3} x kind of malformed input: an answered request, malformed bytes, then a well-formed request in a separate write; the request behind the error must never reach the handler and the server must close the connection"
 		parseErrorCloses(rep)
